@@ -439,6 +439,14 @@ class ArrayRun:
         a, m = self.a, self.m
         self.stepno += 1
         empty = 'empty' if m.size == 0 else 'nonempty'
+        if self.siblings and not getattr(self, 'in_ctx', False):
+            # (the oracles open fresh handles on the array under test: make a sibling the most recently constructed object again)
+            h_, sp_, sref_ = self.siblings[-1]
+            try:
+                self.siblings[-1] = (darr.Array(sp_), sp_, sref_)
+            except Exception as e:
+                self.out.viol('sibling-array-changed', 'sibling-array', f'{type(e).__name__}: {e}')
+                return False
         if o == 'append':
             arg = op['arg']
             if getattr(self, 'in_ctx', False) and arg['k'] in ('scalar', 'npscalar') and m.ndim > 1:
